@@ -33,6 +33,7 @@ func fullProfile(t *tape.Tape, flagCount uint32) app.Profile {
 		ExtErrPct: []int{0, 5, 15}[t.Int(3)], OversizePct: []int{0, 0, 3}[t.Int(3)], EmptyPct: 5,
 		RelTargets: true, EndNodes: t.Chance(1, 2), Translations: t.Chance(1, 3),
 		MultiRowTpl: true, MaxRows: 10, EmptyRows: t.Chance(1, 2), CatchShape: -1,
+		ExtLang: t.Chance(1, 4),
 	}
 }
 
